@@ -518,7 +518,7 @@ Lemma sub_node s : In s (subtrees r) ->
   exists n, get t (rid s) = Ok n /\ nth_error t (rid s) = Some n /\ nchildren n = map rid (rch s).
 Proof.
   intros Hs. destruct (sub_rep s Hs) as (p & d & H).
-  destruct (Rep_inv _ _ _ _ _ H) as (n & cs & Heq & Hn & Hdel & _ & _ & _ & HF & _).
+  destruct (RepLib.Rep_inv _ _ _ _ _ H) as (n & cs & Heq & Hn & Hdel & _ & _ & _ & HF & _).
   exists n. split; [apply get_Ok; auto|]. split; auto. rewrite Heq. cbn [rch].
   eapply Forall2_Rep_rid; eauto.
 Qed.
@@ -586,4 +586,109 @@ Proof.
   - right. split; apply rk_inj; auto.
   - intros E'. apply Hne. apply rk_inj; auto.
   - intros E'. apply Hne'. apply rk_inj; auto.
+Qed.
+
+(* ---- caches ------------------------------------------------------------------------------------------------ *)
+Lemma ksorted_NoDup (es : cache) : ksorted es -> NoDup (map fst es).
+Proof.
+  unfold ksorted. induction (map fst es) as [|k l IH]; intros H; [constructor|].
+  apply StronglySorted_inv in H as [H1 H2]. constructor; auto.
+  intros Hin. rewrite Forall_forall in H2. specialize (H2 _ Hin). lia.
+Qed.
+
+Lemma edge_get_in_keys (es : cache) k : In k (map fst es) <-> edge_get es k <> None.
+Proof.
+  split; [|apply edge_get_keys].
+  induction es as [|[k0 v] es IH]; simpl; [tauto|]. intros [->|H].
+  - rewrite Nat.eqb_refl. discriminate.
+  - destruct (Nat.eqb k0 k); [discriminate|auto].
+Qed.
+
+Definition ins_all (g : L -> L) (cc nc : cache) : cache :=
+  fold_left (fun acc (kv : nat * L) => edge_insert acc (fst kv) (g (snd kv))) cc nc.
+
+Lemma ins_all_sorted g cc : forall nc, ksorted nc -> ksorted (ins_all g cc nc).
+Proof.
+  induction cc as [|[k v] cc IH]; intros nc H; simpl; auto. apply IH. apply ksorted_insert; auto.
+Qed.
+
+Lemma ins_all_get g cc k : NoDup (map fst cc) -> forall nc,
+  edge_get (ins_all g cc nc) k =
+  match edge_get cc k with Some v => Some (g v) | None => edge_get nc k end.
+Proof.
+  induction cc as [|[k0 v0] cc IH]; intros Hnd nc; simpl; [reflexivity|].
+  simpl in Hnd. apply NoDup_cons_iff in Hnd as [Hk0 Hnd].
+  unfold ins_all in *. rewrite IH by auto. destruct (Nat.eqb_spec k0 k) as [->|Hne].
+  - destruct (edge_get cc k) eqn:E.
+    + exfalso. apply Hk0. apply edge_get_in_keys. congruence.
+    + apply edge_get_insert_eq.
+  - destruct (edge_get cc k); auto. apply edge_get_insert_neq; auto.
+Qed.
+
+(* the cache of subtree s: keys = leaves of s (ascending), values = distance from the root of s *)
+Definition cache_ok (s : rtree) (cc : cache) : Prop :=
+  ksorted cc /\ forall k, edge_get cc k = if mem_nat k (rleaves s) then Some (D s k) else None.
+
+Lemma cache_ok_keys s cc k : cache_ok s cc -> (In k (map fst cc) <-> In k (rleaves s)).
+Proof.
+  intros [_ H]. rewrite edge_get_in_keys, H. destruct (mem_nat k (rleaves s)) eqn:E.
+  - apply mem_nat_In in E. split; auto. discriminate.
+  - split; [congruence|]. intros Hin. apply mem_nat_In in Hin. congruence.
+Qed.
+
+Lemma cache_ok_get s cc k : cache_ok s cc -> In k (rleaves s) -> edge_get cc k = Some (D s k).
+Proof. intros [_ H] Hk. rewrite H. apply mem_nat_In in Hk. rewrite Hk. reflexivity. Qed.
+
+(* folding the caches of a list of children into the parent's cache *)
+Definition merge_children (cf : rtree -> cache) (cs : list rtree) (nc : cache) : cache :=
+  fold_left (fun nc c => ins_all (ladd O (elen (rid c))) (cf c) nc) cs nc.
+
+Lemma merge_children_sorted cf cs : forall nc, ksorted nc -> ksorted (merge_children cf cs nc).
+Proof.
+  induction cs as [|c cs IH]; intros nc H; simpl; auto. apply IH. apply ins_all_sorted; auto.
+Qed.
+
+Lemma merge_children_get cf cs k :
+  NoDup (flat_map rleaves cs) -> (forall c, In c cs -> cache_ok c (cf c)) -> forall nc,
+  edge_get (merge_children cf cs nc) k =
+  match find (fun c => mem_nat k (rleaves c)) cs with
+  | Some c => Some (ladd O (elen (rid c)) (D c k))
+  | None => edge_get nc k
+  end.
+Proof.
+  induction cs as [|c cs IH]; intros Hnd Hok nc; simpl; [reflexivity|].
+  simpl in Hnd. apply NoDup_app_iff in Hnd as (_ & Hnd & Hdis).
+  unfold merge_children in *. rewrite IH by (auto; intros; apply Hok; right; auto).
+  destruct (Hok c) as [Hs Hg]; [left; auto|].
+  rewrite ins_all_get by (apply ksorted_NoDup; auto). rewrite Hg.
+  destruct (mem_nat k (rleaves c)) eqn:E; auto.
+  apply mem_nat_In in E. destruct (find _ cs) as [c'|] eqn:F; auto.
+  exfalso. apply find_some in F as [Hc' Hk]. apply mem_nat_In in Hk.
+  apply (Hdis k); auto. apply in_flat_map. eauto.
+Qed.
+
+Lemma cache_tip i : cache_ok (RT i []) [(i, l0 O)].
+Proof.
+  split.
+  - unfold ksorted. simpl. repeat constructor.
+  - intros k. simpl. rewrite (Nat.eqb_sym k i). destruct (Nat.eqb i k); reflexivity.
+Qed.
+
+Lemma cache_internal i cs cf :
+  cs <> [] -> NoDup (ids (RT i cs)) -> (forall c, In c cs -> cache_ok c (cf c)) ->
+  cache_ok (RT i cs) (merge_children cf cs []).
+Proof.
+  intros Hne Hnd Hok. split.
+  - apply merge_children_sorted. unfold ksorted. simpl. constructor.
+  - intros k. pose proof (NoDup_ids_children _ _ Hnd) as [Hcs _].
+    rewrite merge_children_get; auto; [|apply NoDup_forest_leaves; auto].
+    rewrite rleaves_children by auto.
+    destruct (find _ cs) as [c|] eqn:F.
+    + apply find_some in F as [Hc Hk]. apply mem_nat_In in Hk.
+      assert (Hin : In k (flat_map rleaves cs)) by (apply in_flat_map; eauto).
+      apply mem_nat_In in Hin. rewrite Hin. f_equal. symmetry.
+      apply (D_child (RT i cs) c k); auto. apply rleaves_incl_ids; auto.
+    + destruct (mem_nat k (flat_map rleaves cs)) eqn:E; auto.
+      apply mem_nat_In in E. apply in_flat_map in E as (c & Hc & Hk).
+      apply (find_none _ _ F) in Hc. apply mem_nat_In in Hk. congruence.
 Qed.
